@@ -9,13 +9,15 @@ INJECT = {
     "core_parse_error": {"owner": "core/src/parse/error.rs", "decl": "#[cfg(kani)]\nmod kani_h;", "src": "core_parse_error.rs", "dest": "core/src/parse/error/kani_h.rs"},
 }
 HARNESSES = {
+    "extractor_2rules_or2_and1": {"crate": "okane", "inject": ["cli_extract"], "bound": "2 rules x <= 2 OR-elements x 1 field; symbolic matcher answers", "timeout": 1800},
+    "extractor_2rules_or1_and2": {"crate": "okane", "inject": ["cli_extract"], "bound": "2 rules x 1 OR-element x <= 2 AND-fields; symbolic matcher answers", "timeout": 1800},
     "extractor_matches_statement_2rules": {"crate": "okane", "inject": ["cli_extract"], "bound": "<= 2 rules x <= 2 OR-elements x <= 2 AND-fields; symbolic matcher answers, payees/codes/accounts from {None, p1, p2}", "timeout": 1800},
     "extractor_matches_statement_3rules": {"crate": "okane", "inject": ["cli_extract"], "bound": "3 rules x <= 2 OR-elements x <= 2 AND-fields", "timeout": 3600},
     "clip_complete": {"crate": "okane-core", "inject": ["core_parse_adaptor", "core_tracked_ctor"], "bound": "none (loop-free, full usize domain)", "complete": True, "timeout": 600},
     "resolve_is_clip": {"crate": "okane-core", "inject": ["core_parse_adaptor", "core_tracked_ctor"], "bound": "none (loop-free, full usize domain)", "complete": True, "timeout": 600},
     "parsed_context_line_and_slice": {"crate": "okane-core", "inject": ["core_parse_adaptor", "core_tracked_ctor"], "bound": "ASCII text <= 6 bytes; every span", "timeout": 900},
     "get_column_complete": {"crate": "okane-core", "inject": ["core_display"], "bound": "none (loop-free, full usize domain)", "complete": True, "timeout": 600},
-    "to_double_entry_signs": {"crate": "okane", "inject": ["cli_single_entry"], "bound": "one record: symbolic i64 mantissa, scale <= 4; optional transferred amount / balance / dest account; no charges, no rates", "timeout": 2400},
+    "to_double_entry_signs": {"crate": "okane", "inject": ["cli_single_entry"], "bound": "one record: amounts from the sign classes {+,-} x two magnitudes (scale 2); optional transferred amount / balance / dest account; no charges, no rates", "timeout": 2400},
     "display_roundtrip_bounded": {"crate": "okane-core", "inject": ["core_pretty_decimal"], "bound": "|mantissa| < 10^7, scale <= 3, Plain and Comma3Dot", "timeout": 1800},
     "compute_line_number_bounded": {"crate": "okane-core", "inject": ["core_parse_error"], "bound": "text <= 4 characters over {LF, CR, a, ;, あ(3 bytes)}; every byte position", "timeout": 600},
     "parse_error_new_bounded": {"crate": "okane-core", "inject": ["core_parse_error"], "bound": "text <= 4 characters over {LF, CR, a, ;, あ(3 bytes)}; every entry start and failure offset on a char boundary", "timeout": 900},
